@@ -452,7 +452,26 @@ def check_resolve(ctx: Ctx) -> None:
                 ao = origins(prog, f, c.args[0], n)
                 if any(o[0] == "call" and str(o[1]).endswith(".resolve") for o in ao):
                     appends.append((f, n, c, ao))
-    ctx.require("R-RESOLVE-V4", "result.append sites in resolve", len(appends), 1)
+    keyed = []
+    if not appends:
+        # the result collected as the keys of a dict / the members of a set: duplicate-free by construction
+        for f in scope_fns.values():
+            if isinstance(f.node, ast.Lambda):
+                continue
+            fl = prog.flow(f)
+            for n in fl.cfg.nodes:
+                if n.kind == "stmt" and isinstance(n.ast, ast.Assign) and len(n.ast.targets) == 1 and isinstance(n.ast.targets[0], ast.Subscript):
+                    ko = origins(prog, f, n.ast.targets[0].slice, n)
+                    if any(o[0] == "call" and str(o[1]).endswith(".resolve") for o in ko):
+                        keyed.append((f, n))
+                for c in fl.calls_in(n):
+                    if isinstance(c.func, ast.Attribute) and c.func.attr == "add" and len(c.args) == 1 \
+                            and any(o[0] == "call" and str(o[1]).endswith(".resolve") for o in origins(prog, f, c.args[0], n)):
+                        keyed.append((f, n))
+        for f, n in keyed:
+            ctx.ob("R-RESOLVE-V4", f"{res.qual} :: {norm(n.ast)[:50]} collects resolved paths as keys", True,
+                   "the result is gathered as dict keys / set members of resolved paths: no path can occur twice", where(f, n))
+    ctx.require("R-RESOLVE-V4", "places where a resolved path enters the result of resolve", len(appends) + len(keyed), 1)
     rflow = prog.flow(res)
     for f, n, c, ao in appends:
         seen_ok = False
